@@ -292,6 +292,7 @@ package ast
 //@   requires $depth == 0 && treeWF()
 //@   ghost_entry $inAction = true
 //@   ghost_exit $inAction = false
+//@   ghost_exit $sinceNilCheck = $sinceNilCheck + 1
 //@   modifies @actions, @thenlog
 //@   ensures forall re *RuleEntry :: old(re.Retracted) ==> re.Retracted
 //@   ensures forall d Ref :: old($complete[d]) ==> $complete[d]
